@@ -56,19 +56,19 @@ Section Fuel.
   Qed.
 
   Lemma unvisited_mark c v b :
-    vm_get (mapping st) (vk_name v) = Some v -> conn_get c v = None ->
+    (exists p, In (p, v) (mapping st)) -> conn_get c v = None ->
     (unvisited (conn_set c v b) < unvisited c)%nat.
   Proof.
-    intros P G. apply (filter_length_lt _ _ _ (vk_name v, v)).
+    intros (p0 & P) G. apply (filter_length_lt _ _ _ (p0, v)).
     - intros [p w] _ H. unfold unmarked in *. simpl in *.
       rewrite conn_get_set in H. destruct (vkey_eqb v w); [discriminate | auto].
-    - apply vm_get_In; auto.
+    - exact P.
     - unfold unmarked. simpl. rewrite conn_get_set, vkey_eqb_refl. auto.
     - unfold unmarked. simpl. rewrite G. auto.
   Qed.
 
   Definition rec_total (f : nat) (rec : vkey -> conn -> res (bool * conn)) : Prop :=
-    forall par c, vm_get (mapping st) (vk_name par) = Some par -> (unvisited c < f)%nat ->
+    forall par c, (exists p, In (p, par) (mapping st)) -> (unvisited c < f)%nat ->
     exists r, rec par c = Ok r /\ dom_le c (snd r).
 
   Lemma route_parents_total f rec v : rec_total f rec ->
@@ -82,7 +82,7 @@ Section Fuel.
       + destruct (vm_get (mapping st) (vk_name par)) as [pv|] eqn:Gp; [|apply IH; auto].
         destruct (vkey_eqb pv par) eqn:Ep; [|apply IH; auto].
         apply vkey_eqb_eq in Ep. subst pv.
-        destruct (Hrec par c Gp Hc) as (r & R & D). rewrite R. cbn [bind].
+        destruct (Hrec par c (ex_intro (fun p => In (p, par) (mapping st)) (vk_name par) (vm_get_In _ _ _ Gp)) Hc) as (r & R & D). rewrite R. cbn [bind].
         destruct (fst r).
         * eexists. split; [reflexivity|]. simpl. eapply dom_le_trans; [exact D | apply dom_le_set].
         * assert (Hc' : (unvisited (snd r) < f)%nat) by (pose proof (unvisited_mono _ _ D); lia).
@@ -100,6 +100,23 @@ Section Fuel.
       + destruct (route_parents_total _ _ v IH (map snd (c_info crit)) _ Hc1) as (r & R & D).
         exists r. split; auto. eapply dom_le_trans; [apply dom_le_set | exact D].
       + eexists. split; [reflexivity|]. simpl. apply dom_le_set.
+  Qed.
+
+  (* the node loop never runs out of fuel, whatever the state *)
+  Lemma add_nodes_ok : forall m c nodes ids,
+    incl m (mapping st) -> exists r, add_nodes st m c nodes ids = Ok r.
+  Proof.
+    assert (Hle : forall c, (unvisited c <= length (mapping st))%nat).
+    { intros c. unfold unvisited. generalize (mapping st). intros l.
+      induction l as [|x l IH]; simpl; auto. destruct (unmarked c x); simpl; lia. }
+    induction m as [|[p v] m IH]; intros c nodes ids Hm; cbn [add_nodes].
+    - eauto.
+    - assert (Hm' : incl m (mapping st)) by (intros x Hx; apply Hm; right; auto).
+      destruct (has_route_total (2 + length (mapping st)) v c) as (r & R & _).
+      { exists p. apply Hm. left; auto. }
+      { pose proof (Hle c). lia. }
+      rewrite R. cbn [bind]. destruct (fst r); [|apply IH; auto].
+      destruct (ids_get ids p); apply IH; auto.
   Qed.
 
   Lemma unvisited_le c : (unvisited c <= length (mapping st))%nat.
@@ -141,7 +158,7 @@ Section Total.
       assert (Np : vk_name v = p) by (eapply pin_name; eauto).
       assert (Pv : vm_get (mapping st) (vk_name v) = Some v) by (rewrite Np; auto).
       assert (Hm' : incl m (mapping st)) by (intros x Hx; apply Hm; right; auto).
-      destruct (has_route_total st (2 + length (mapping st)) v c Pv) as (r & R & _).
+      destruct (has_route_total st (2 + length (mapping st)) v c (ex_intro (fun q => In (q, v) (mapping st)) p Hin)) as (r & R & _).
       { pose proof (unvisited_le st c). lia. }
       rewrite R. cbn [bind].
       destruct (fst r); [|apply IH; auto].
